@@ -1,13 +1,13 @@
 """Source of truth for MANIFEST.json (tools/mkmanifest.py turns it into JSON)."""
 
 ENGINES = [
-    {"name": "PROG", "path": "mc/prog.py, mc/proggen.py", "serves_properties": ["C01"],
+    {"name": "PROG", "path": "mc/prog.py, mc/proggen.py", "serves_properties": ["C01", "C05"],
      "kind_free_text": "bounded-exhaustive enumerator of component programs (AST + printer) executed on the real library and compared with a reference interpreter"},
     {"name": "SEQ", "path": "mc/seq.py", "serves_properties": ["C18"],
      "kind_free_text": "explicit-state BFS over operation histories on the real objects, canonical-state merging, reference model per step, unmerged cross-check"},
 ]
 
-FIX_COMMITS = ["9971f7b (C01)"]
+FIX_COMMITS = ["9971f7b (C01)", "a8b3a60 (C05)"]
 
 _PENDING = "check not built yet in this session (build order: DESIGN.md section 6); it will be decided by the same bounded-exhaustive technique"
 
@@ -20,6 +20,16 @@ CHECKS = {
                 "is rendered by the real library in both context_behavior modes, through the component tag, the dynamic component and Component.render(slots=...), "
                 "and output / error class / is_filled probes are compared with a denotational reference interpreter on every program.",
         "note": "bounded program size; variables scope-independent by construction (scoping is C03); slots only inside component templates; acyclic component graphs; reference interpreter encodes the statement's lexical slot resolution",
+    },
+    "C05": {
+        "engine": "PROG",
+        "design_ref": "DESIGN.md 2.1, 2.3, 3/C05",
+        "technique": "bounded-exhaustive program enumeration on the real renderer vs dynamic-scope provider model + exhaustive render histories",
+        "text": "Every program of the provide profile (provide k|m at page level, in component templates, around slots, in fills, in loops, nested/shadowing; "
+                "consumers with and without default) with <= N nodes (quick: N<=4 wide profile + N=5 narrow; thorough: N<=5 / 6) is rendered by the real library in both modes and compared with a "
+                "provider-chain reference model (output, KeyError class, injected field names, provided kwargs never template variables, empty provide registries after success); "
+                "plus all render histories <= 3 over 6 representative pages (each render equals its solo result).",
+        "note": "provide tags between a component tag and its fill are outside the profile; bounded program size; single thread (threads are C07)",
     },
     "C18": {
         "engine": "SEQ",
